@@ -662,3 +662,59 @@ def single_subst_roundtrip(pat):
     st2.Format = fmt
     st2.postRead(raw2, font)
     ob('postRead:same-mapping', st2.mapping == dict(pairs))
+
+
+# ------------------------------------------------------------------------------------------------ Coverage as an independent reader sees it
+import fontTools.ttLib.tables.otBase as OB
+
+
+def spec_coverage_index(d, gid):
+    """coverage index of glyph id gid, or -1 (OpenType spec, Coverage formats 1 and 2); d = list of byte values"""
+    fmt = int(be_uint(d[0:2]))
+    n = int(be_uint(d[2:4]))
+    res = -1
+    if fmt == 1:
+        for i in reversed(range(n)):
+            res = ite(eq(be_uint(d[4 + 2 * i:6 + 2 * i]), gid), i, res)
+        return res
+    for i in reversed(range(n)):
+        o = 4 + 6 * i
+        s, e, sci = be_uint(d[o:o + 2]), be_uint(d[o + 2:o + 4]), be_uint(d[o + 4:o + 6])
+        res = ite(conj([le(s, gid), le(gid, e)]), sci + (gid - s), res)
+    return res
+
+
+@kernel('C02', funcs=['ttLib/tables/otTables.py:Coverage.preWrite', 'ttLib/tables/otBase.py:BaseTable.compile', 'ttLib/tables/otBase.py:OTTableWriter.getAllData',
+                      'ttLib/tables/otTables.py:Coverage.postRead'],
+        bounds='Coverage of k in 2..5 glyphs out of a 7-glyph font whose glyph ids are a SYMBOLIC permutation (so the order, the runs of consecutive ids and with them '
+               'format 1 vs format 2 are solver forks): in the compiled bytes, read by the OpenType rule (format 1: position in the sorted array; format 2: '
+               'StartCoverageIndex + gid - Start), every listed glyph gets its list position as coverage index (lists not in glyph-id order are kept through StartCoverageIndex) and every other glyph is not covered; '
+               'records are sorted and disjoint; fontTools\' own reader returns the same list',
+        shims=['struct', 'array'], quick=[dict(k=3), dict(k=4)], thorough=[dict(k=k) for k in (2, 3, 4, 5)], conc_cap=60, max_paths=200000)
+def coverage_compile_spec(k):
+    font = SymFont(7)
+    cov = OT.Coverage()
+    cov.glyphs = ['g%d' % i for i in range(k)]
+    w = OB.OTTableWriter()
+    cov.compile(w, font)
+    data = w.getAllData()
+    d = blist(data)
+    fmt = int(be_uint(d[0:2]))
+    observe('format', fmt)
+    observe('length', len(d))
+    gids = [font.getGlyphID(n) for n in font.names]
+    covered = gids[:k]
+    # the coverage index of the i-th listed glyph is i: arrays indexed by coverage stay parallel to the list (also when the list is not in
+    # glyph-id order, which fontTools keeps - with a warning - through StartCoverageIndex)
+    ob('spec:coverage-index-is-list-position', conj([eq(spec_coverage_index(d, g), i) for i, g in enumerate(covered)]))
+    ob('spec:other-glyphs-not-covered', conj([eq(spec_coverage_index(d, g), -1) for g in gids[k:]]))
+    n = int(be_uint(d[2:4]))
+    if fmt == 1:
+        ob('spec:sorted', conj([lt(be_uint(d[4 + 2 * i:6 + 2 * i]), be_uint(d[6 + 2 * i:8 + 2 * i])) for i in range(n - 1)]))
+    else:
+        ob('spec:sorted', conj([le(be_uint(d[4 + 6 * i:6 + 6 * i]), be_uint(d[6 + 6 * i:8 + 6 * i])) for i in range(n)]
+                               + [lt(be_uint(d[6 + 6 * i:8 + 6 * i]), be_uint(d[10 + 6 * i:12 + 6 * i])) for i in range(n - 1)]))
+    cov2 = OT.Coverage()
+    cov2.decompile(OB.OTTableReader(data), font)
+    ob('decompile:same-set', sorted(cov2.glyphs) == sorted(cov.glyphs))
+    ob('decompile:same-list-when-sorted', cov2.glyphs == cov.glyphs or not conj([lt(covered[i], covered[i + 1]) for i in range(k - 1)]))
